@@ -46,14 +46,14 @@ def extra(exp, obs, wants, rot):
         if kind == 'gotwant':
             want_line = lay['want_at']
         else:
-            want_line = lay['last_stmt_at']
+            want_line = lay.get('fail_at', lay['last_stmt_at'])
         try:
             got_line = dt.failed_lineno() - 1      # DocTest.lineno is 1 for a bare docstring
         except Exception as ex:
             return bad + [('failed_lineno', want_line, 'raised %r' % (ex,))]
         if got_line != want_line:
             bad.append(('failed_lineno', '%d: %s' % (want_line, lines[want_line]), '%d: %s' % (got_line, lines[got_line] if 0 <= got_line < len(lines) else '?')))
-        src = lines[lay['last_stmt_at']]
+        src = lines[lay.get('fail_at', lay['last_stmt_at'])]
         if src.replace('>>> ', '', 1).strip() not in text:
             bad.append(('report_shows_failing_line', src, text[-600:]))
     return bad
